@@ -126,6 +126,7 @@ func RunOne(t *testing.T, c *Check, conf string, seed uint64, run int, replay []
 		MaxSteps: c.MaxSteps, KeepTrace: keepTrace, DeadlockAfter: c.DeadlockAfter}
 	MapShuffle = false
 	ZmqCapture = nil
+	CrossDevice = nil
 	res := Run(t, cfg, func() { c.Body(env) })
 	out := &RunOutcome{Res: res, Ops: env.ops, OpHash: env.opHash, Sample: env.sample, Dir: dir}
 	out.Violation = res.Violation
